@@ -28,6 +28,8 @@ DECLS = {
                [("d", "datamark", b"\x00"), ("e", "datainc", b"ab"), ("z", "int", 1)], 6),
     "k_meta_mark": ("d = Data(until_marker=b'.*')\n    z = Int(1)",
                     [("d", "datamark", b".*"), ("z", "int", 1)], 5),
+    "k_meta_mark2": ("d = Data(until_marker=b'a+')\n    e = Data(until_marker=b'(', include_delimiter=True)\n    z = Int(1)",
+                     [("d", "datamark", b"a+"), ("e", "datainc2", b"("), ("z", "int", 1)], 6),
     "k_regex_kept": ("a = Int(1)\n    d = Data(until_marker=re.compile(b'X+'), include_delimiter=True)\n    z = Int(1)",
                      [("a", "int", 1), ("d", "dataregex", b"X"), ("z", "int", 1)], 5),
     "k_eos": ("a = Int(1)\n    d = Data(until_marker=EOS)",
@@ -142,6 +144,8 @@ def literal(kind, arg, j, i):
         return body if arg not in body and not (body + arg[:1]).endswith(arg) else b"q"
     if kind == "datainc":
         return [b"ab", b"." + b"ab", b"\\ab", b"aab"][j % 4]
+    if kind == "datainc2":
+        return [b"(", b".(", b"\\(", b"[("][j % 4]
     if kind == "dataregex":
         return [b"X", b".XX", b"\\X", b"aXXX"][j % 4]
     if kind == "dataeos":
